@@ -7,6 +7,7 @@
 (*   calls   [route, c, t, src, lab, raised, items, lens, pre, n]             *)
 (*   arrays  TreeArray.read: [t, src, raised, rooted, trees: [splits, w]]     *)
 (*   mpool / mref / mcalls   the same for character matrices ([cls, m, src, ..])*)
+(*   pairs   two consecutive reads into one fresh namespace [a, b, raised, ia, ib]*)
 (* TLC applies the selection operators of ReadRoutes to the collections the   *)
 (* data-set route delivered and judges every other route against them, field  *)
 (* by field (total verdicts).                                                 *)
@@ -108,6 +109,14 @@ JudgeCall(e, k) ==
                 ELSE same(Flatten(colls)) \o (IF call.lens = [j \in 1..Len(colls) |-> Len(colls[j])] THEN None ELSE V("C13.SameTrees", cls \o ":collections"))
            [] OTHER -> V("C13.SameTrees", cls \o ":unknown-route"))
 
+\* ------------------------------------------------------------------ two consecutive reads into one namespace
+\* e.pairs[k] = [a, b, raised, ia, ib]: the same text read by route a and then by route b into one fresh
+\* namespace (all trees each time): same trees, attached to the same taxon objects
+JudgePair(e, k) ==
+    LET p == e.pairs[k]  cls == e.fmt \o "/" \o p.a \o "-then-" \o p.b IN
+    IF p.raised # "" THEN V("C13.SameTrees", cls \o ":raised-" \o p.raised)
+    ELSE CompareSeqs(e, TRUE, p.ia, p.ib, cls, e.fmt \o "/two-reads", p.b, FALSE)
+
 \* ------------------------------------------------------------------ tree arrays: structures only
 JudgeArray(e, k) ==
     LET a == e.arrays[k]
@@ -185,7 +194,8 @@ Judge(e) ==
     ELSE S2Q(SeqToSet(JudgeRef(e))
              \cup UNION {SeqToSet(JudgeCall(e, k)) : k \in 1..Len(e.calls)}
              \cup UNION {SeqToSet(JudgeArray(e, k)) : k \in 1..Len(e.arrays)}
-             \cup UNION {SeqToSet(JudgeMatrix(e, k)) : k \in 1..Len(e.mcalls)})
+             \cup UNION {SeqToSet(JudgeMatrix(e, k)) : k \in 1..Len(e.mcalls)}
+             \cup UNION {SeqToSet(JudgePair(e, k)) : k \in 1..Len(e.pairs)})
 
 Init == l = 1 /\ bad = <<>>
 Next == /\ l <= Len(Tr)
